@@ -10,7 +10,8 @@ EXTENDS Integers, Sequences, FiniteSets, TLC
 
 CONSTANTS Verbs, QueryTokens, MaxQuery, Bodies, Thresholds, Edits
 
-ByteLen(tok) == IF tok \in {"%25", "%0D", "%0A"} THEN 3 ELSE 1
+\* "LONG" stands for a run of 6000 query bytes (longer than any I/O buffer of the multipart reader)
+ByteLen(tok) == IF tok = "LONG" THEN 6000 ELSE IF tok \in {"%25", "%0D", "%0A"} THEN 3 ELSE 1
 RECURSIVE QLen(_)
 QLen(q) == IF q = <<>> THEN 0 ELSE ByteLen(Head(q)) + QLen(Tail(q))
 
